@@ -441,7 +441,7 @@ func UpdateNRTZoneListIfNeeded(node *corev1.Node, zoneList topologyv1alpha1.Zone
 		zone := zoneList[i]
 		zoneResource, ok := nr.ZoneResources[zone.Name]
 		if !ok { // the resources of the zone should be reset
-			for _, resourceInfo := range zone.Resources {
+			for j, resourceInfo := range zone.Resources {
 				if !updateNRTResourceSet.Has(resourceInfo.Name) {
 					continue
 				}
@@ -454,6 +454,7 @@ func UpdateNRTZoneListIfNeeded(node *corev1.Node, zoneList topologyv1alpha1.Zone
 				resourceInfo.Capacity = *resource.NewQuantity(0, resourceInfo.Capacity.Format)
 				resourceInfo.Allocatable = *resource.NewQuantity(0, resourceInfo.Allocatable.Format)
 				resourceInfo.Available = *resource.NewQuantity(0, resourceInfo.Available.Format)
+				zone.Resources[j] = resourceInfo
 				klog.V(6).InfoS("reset batch resource for zone", "node", node.Name,
 					"zone", zone.Name, "resource", resourceInfo.Name)
 			}
